@@ -129,6 +129,13 @@ theorem step_shape3 (c : Cfg) (s : St) : Plain s (step c s) ∨ RecvStep c s (st
   split
   · exact Or.inl (Plain.same rfl rfl rfl)
   · split
+    · -- [proxy8] what follows the exhausted task loop: no filter pass
+      rcases finishStart_cases c s with ⟨_, e⟩ | ⟨_, e⟩ | ⟨_, e⟩ | ⟨_, _, e⟩ <;> rw [e]
+      · exact Or.inl (Plain.same rfl rfl rfl)
+      · exact Or.inl (Plain.same rfl rfl rfl)
+      · exact Or.inl (Plain.same rfl rfl rfl)
+      · exact Or.inl (Plain.via c (Plain.same rfl rfl rfl))
+    split
     · exact Or.inl (Plain.same (by simp) (by simp [ret_toFState]) (by simp [ret_toFState]))
     · exact phaseCase_shape3 c { s with inner := s.inner + 1 }
 
@@ -448,6 +455,10 @@ theorem step_Uinv (c : Cfg) (s : St) (hg : Ginv c s) (hu : Uinv s) : Uinv (step 
   · exact hu
   · rename_i hnh
     have hnh : s.halted = false := by simpa using hnh
+    split
+    · -- [proxy8] what follows the exhausted task loop
+      obtain ⟨⟨ft, _, _, _, _, _, fb⟩, _⟩ := finishStart_form c s hg hnh
+      exact ⟨by rw [ft]; exact hu.nounm, by rw [fb]; exact hu.noblock⟩
     split
     · exact ⟨by rw [ret_trace]; exact hu.nounm, by
         have : (ret s End).blocked = s.blocked := ret_blocked s End
